@@ -7,6 +7,15 @@ PKGS = {
 }
 
 PROPS = {
+    "C05": {
+        "harnesses": [
+            {"pkg": "interpreter", "name": "VH_C05_Opcode", "quick": {"params": {"D": 3, "K": 2, "A": 1, "U": 6, "KM": 1}}, "thorough": {"params": {"D": 4, "K": 3, "A": 1, "U": 8, "KM": 2}}},
+            {"pkg": "interpreter", "name": "VH_C05_Opcode", "quick": {"params": {"D": 2, "K": 1, "BIGTOP": 9, "OPLO": 121, "OPHI": 128, "U": 4}}, "thorough": {"params": {"D": 3, "K": 1, "BIGTOP": 9, "OPLO": 121, "OPHI": 165, "U": 4}}},
+            {"pkg": "interpreter", "name": "VH_C05_Control", "quick": {"params": {"D": 1, "K": 1, "C": 2, "U": 4}}, "thorough": {"params": {"D": 2, "K": 1, "C": 3, "U": 4}}},
+        ],
+        "validate_tests": [{"pkg": "interpreter", "run": "TestVerifRefScripts"}],
+        "assumptions": [],
+    },
     "C18": {
         "harnesses": [
             {"pkg": "bt", "name": "VH_C18_FeeQuote"},
@@ -85,7 +94,7 @@ PROPS = {
     },
     "C08": {
         "harnesses": [
-            {"pkg": "interpreter", "name": "VH_C08_Alias", "quick": {"params": {"K": 2, "U": 6, "NUMERIC": 0}}, "thorough": {"params": {"K": 3, "U": 8, "NUMERIC": 1}}},
+            {"pkg": "interpreter", "name": "VH_C08_Alias", "quick": {"params": {"K": 2, "KB": 4, "U": 6, "NUMERIC": 0}}, "thorough": {"params": {"K": 3, "KB": 5, "U": 8, "NUMERIC": 1}}},
         ],
         "assumptions": [],
     },
